@@ -146,6 +146,12 @@ Definition write_many_lf_before_fix (c : logcfg) (ts : bytes) (lens : list N) (d
   if lmax_size c <=? cur_size c d0 then drename (cur_name c) (arch_name c ts) d0
   else dappend (cur_name c) (total_bytes lens) (open_file c d0).
 
+(* a RESTART of the agent: service::setup_loggers builds the two loggers with RollingLogger::create_new
+   (which only stores dir, name, extension, max size, max count -- no file-system access, no size or
+   count cached: every later call re-reads the directory) and registers them with
+   logger_manager::set_loggers.  Nothing is opened, archived or trimmed at start-up. *)
+Definition restart_logger (c : logcfg) (d : dir) : dir := d.
+
 (* write(level, message): the line is the 34-byte header followed by the message *)
 Definition write_msg (c : logcfg) (ts : bytes) (len : N) (d : dir) : dir :=
   write_many c ts [Consts.log_header_len + len] d.
@@ -172,6 +178,17 @@ Definition write_all (maxc : N) (ts : bytes) (sz : N) (d : dir) : dir :=
   let d1 := if maxc <=? fc then del_loop files maxc fc d else d in
   dput (dump_name ts) sz 0 d1.
 
+(* the same procedure writing an arbitrary new file name (to state what the name scheme must satisfy) *)
+Definition write_all_with (name : bytes) (maxc : N) (sz : N) (d : dir) : dir :=
+  let files := dump_files d in
+  let fc := N.of_nat (length files) in
+  let d1 := if maxc <=? fc then del_loop files maxc fc d else d in
+  dput name sz 0 d1.
+
+(* a name scheme that puts a tag BEFORE the time stamp (seeded change s1: the modes in force) *)
+Definition dump_name_tagged (tag ts : bytes) : bytes :=
+  colon_to_dot (Consts.rules_dump_new_prefix ++ tag ++ [95] ++ ts ++ Consts.rules_dump_new_suffix).
+
 (* ---------------------------------------------------------------------------------------- *)
 (* histories on one shared log directory                                                     *)
 (* ---------------------------------------------------------------------------------------- *)
@@ -180,9 +197,11 @@ Inductive op :=
 | OWriteRF (c : logcfg) (lens : list N)              (* the same in an environment where the rename fails *)
 | OWriteLF (c : logcfg) (ts : bytes) (lens : list N) (* the same where listing the directory fails *)
 | ODump (maxc : N) (ts : bytes) (sz : N)              (* write_all *)
-| ODumpLF.                                            (* write_all where search_files fails: logged, nothing written *)
-(* a restart is not an operation of the model: RollingLogger and write_all keep no state in
-   memory, every call re-reads the directory *)
+| ODumpLF                                             (* write_all where search_files fails: logged, nothing written *)
+| ORestart (c : logcfg).                              (* process restart: the logger object of c is built anew *)
+(* RollingLogger and write_all keep no state in memory (every call re-reads the directory), so the
+   restart step changes nothing -- it is an explicit operation so that the theorems quantify over it
+   and the correspondence runs the real start-up path against it *)
 
 Definition step (d : dir) (o : op) : dir :=
   match o with
@@ -191,6 +210,7 @@ Definition step (d : dir) (o : op) : dir :=
   | OWriteLF c ts lens => write_many_lf c ts lens d
   | ODump maxc ts sz => write_all maxc ts sz d
   | ODumpLF => d
+  | ORestart c => restart_logger c d
   end.
 
 Definition run (d : dir) (ops : list op) : dir := fold_left step ops d.
